@@ -400,8 +400,67 @@ fn search_case(l: &mut Local, rng: &mut Rng, threads: usize, reps: usize) {
     }
 }
 
+/// Many searches over ranges in which EVERY seed succeeds, on 16 threads: several constructions finish within
+/// microseconds of each other, so a result assembled from two of them (seed of one, matrix of the other) shows.
+fn race_case(l: &mut Local, rng: &mut Rng, searches: usize) {
+    let nrows = rng.range(8, 16);
+    let c = MnConfig {
+        nrows,
+        ncols: 2 * nrows,
+        wr: 8,
+        wc: 3,
+        backtrack_cols: 0,
+        backtrack_trials: 0,
+        min_girth: None,
+        girth_trials: 0,
+        fill_policy: if rng.coin() { FillPolicy::Random } else { FillPolicy::Uniform },
+    };
+    let pool = rayon::ThreadPoolBuilder::new().num_threads(16).build().expect("rayon pool");
+    let base = rng.next_u64() >> 20;
+    for it in 0..searches as u64 {
+        let start = base + it * 1000;
+        l.eval();
+        let res = guard(|| pool.install(|| c.search(start, 64)));
+        let det = |what: String| mn_json(&c).set("start_seed", start).set("max_tries", 64).set("threads", 16).set("what", what);
+        match res {
+            Err(p) => {
+                l.violation(format!("seed search panicked: {}", panic_class(&p)), det(p.clone()));
+                return;
+            }
+            Ok(None) => {
+                if (start..start + 64).any(|s| c.run(s).is_ok()) {
+                    l.violation("seed search returned nothing although a seed in range succeeds", det("None".into()));
+                    return;
+                }
+            }
+            Ok(Some((s, h))) => {
+                if s < start || s >= start + 64 {
+                    l.violation("seed search returned a seed outside the requested range", det(format!("seed {}", s)));
+                    return;
+                }
+                match c.run(s) {
+                    Ok(hs) if hs == h => {}
+                    Ok(_) => {
+                        l.violation("seed search returned a matrix that is not the one its seed produces", det(format!("seed {} (search {} of this case)", s, it)));
+                        return;
+                    }
+                    Err(_) => {
+                        l.violation("seed search returned a seed that fails when run on its own", det(format!("seed {}", s)));
+                        return;
+                    }
+                }
+                l.seen("search_seed_offsets_returned_races", format!("{}", s - start));
+            }
+        }
+    }
+    l.count_n("searches_over_all_succeeding_ranges", searches as u64);
+    let mut d = Dig::new();
+    d.s("race").u(base).u(nrows as u64);
+    l.nt(d.get());
+}
+
 pub fn run(run: &mut Run) {
-    run.rule = "MacKay-Neal: rows 2..12, cols 2..30, wc 1..4, wr from tight to generous, backtracking 0..4 x 0..5, min girth None or 4..12 (odd values included), girth trials 0..50, both policies, random seeds; on Ok: size, every column weight = wc (from the row view AND the column view), row weights <= wr, own-oracle girth >= min_girth, uniform/no-girth => row weights differ by <= 1; run(seed) twice equal; 64 seeds of a large-choice configuration give >= 2 distinct matrices. PEG: rows 1..12, cols 1..30 (2 % of the cases up to 40 x 120), wc 1..5 and 0: column weight = min(wc, rows) and REPLAY of every edge in insertion order against an own BFS on the graph at that time (unreachable, else maximal distance; least degree among those). Search (small configurations, marginal 12..20-row girth-6 configurations whose successful seeds spend retries, and 60..200-row configurations whose constructions overlap in time): result compared with a sequential re-run of the whole seed range (tries <= 48) inside rayon pools of 1/2/4/16 threads, repeated; non-trivial = MN result changed by the girth constraint or succeeding only thanks to backtracking / PEG with wc >= 2 / search range with >= 2 successful seeds".into();
+    run.rule = "MacKay-Neal: rows 2..12, cols 2..30, wc 1..4, wr from tight to generous, backtracking 0..4 x 0..5, min girth None or 4..12 (odd values included), girth trials 0..50, both policies, random seeds; on Ok: size, every column weight = wc (from the row view AND the column view), row weights <= wr, own-oracle girth >= min_girth, uniform/no-girth => row weights differ by <= 1; run(seed) twice equal; 64 seeds of a large-choice configuration give >= 2 distinct matrices. PEG: rows 1..12, cols 1..30 (2 % of the cases up to 40 x 120), wc 1..5 and 0: column weight = min(wc, rows) and REPLAY of every edge in insertion order against an own BFS on the graph at that time (unreachable, else maximal distance; least degree among those). Search (small configurations, marginal 12..20-row girth-6 configurations whose successful seeds spend retries, and 60..200-row configurations whose constructions overlap in time): result compared with a sequential re-run of the whole seed range (tries <= 48) inside rayon pools of 1/2/4/16 threads, repeated; 12 000 (quick) searches over ranges in which every seed succeeds, on 16 threads (returned matrix = run(returned seed)); non-trivial = MN result changed by the girth constraint or succeeding only thanks to backtracking / PEG with wc >= 2 / search range with >= 2 successful seeds".into();
     run.assumptions = vec!["PEG insertion order within a column is read from the column iterator (push order)".into()];
     let miri = cfg!(miri);
     let n_mn = if miri { 6 } else { run.tier.n(500_000, 15_000_000) };
@@ -417,6 +476,10 @@ pub fn run(run: &mut Run) {
         let threads = if cfg!(miri) { 2 } else { [1usize, 2, 4, 16][(idx % 4) as usize] };
         search_case(l, rng, threads, reps);
     });
+    if !miri {
+        let per = run.tier.n(4000, 40_000) as usize;
+        run.sub_seq("seed-search-races", run.tier.n(3, 12), move |l, _i, rng| race_case(l, rng, per));
+    }
     run.sub_seq("directed", 1, |l, _i, _rng| {
         // documented example configuration
         let c = MnConfig { nrows: 4, ncols: 8, wr: 4, wc: 2, backtrack_cols: 0, backtrack_trials: 0, min_girth: None, girth_trials: 0, fill_policy: FillPolicy::Uniform };
